@@ -121,6 +121,15 @@ Theorem C07_builder_tree_is_defining_sum :
 Proof. intros K L n data s r W S H. exact (contract_tree_correct n data W s r S H). Qed.
 Print Assumptions C07_builder_tree_is_defining_sum.
 
+(** ... from the library's own consistency check *)
+Theorem C07_builder_tree_is_defining_sum_from_is_consistent :
+  forall (K : Scalar) (L : ScalarLaws K) (n : net) (data : Z -> list nat -> K) s r,
+    Rep n -> is_consistent n = true -> scaffold_ok n s -> contract_tree n data s = Some r ->
+    exists shp, shape n = Some shp /\ fst (to_full_tensor (r_val r) (r_amap r)) = shp /\
+      forall x, in_range shp x -> snd (to_full_tensor (r_val r) (r_amap r)) x = defining_sum n data x.
+Proof. intros K L n data s r R C S H. exact (contract_tree_correct n data (is_consistent_WF n R C) s r S H). Qed.
+Print Assumptions C07_builder_tree_is_defining_sum_from_is_consistent.
+
 (** the builder itself: it never raises on such a scaffold, and every tree it builds passes the
     verified tree checker (index lists, openaxes, trackaxes of every node) *)
 Theorem C07_builder_tree_passes_checker :
